@@ -20,8 +20,15 @@ type Sink struct {
 }
 
 // New opens a sink with a large receive buffer and starts its reader.
-func New() (*Sink, error) {
-	c, err := net.ListenUDP("udp4", &net.UDPAddr{IP: net.IPv4(127, 0, 0, 1)})
+func New() (*Sink, error) { return NewAt(0) }
+
+// Port returns the UDP port the sink listens on.
+func (s *Sink) Port() int { return s.Conn.LocalAddr().(*net.UDPAddr).Port }
+
+// NewAt opens a sink on a specific loopback port (0 = ephemeral); used to
+// bring a destination back after it went away.
+func NewAt(port int) (*Sink, error) {
+	c, err := net.ListenUDP("udp4", &net.UDPAddr{IP: net.IPv4(127, 0, 0, 1), Port: port})
 	if err != nil {
 		return nil, err
 	}
